@@ -49,6 +49,15 @@ pub fn configs() -> Vec<(String, BuildSpec)> {
     s.name = "c2signed-rsa".into();
     s.sign = Some(Key::Rsa4096);
     v.push(("2 users, signed with RSA-4096".into(), s));
+    let mut s = v[3].1.clone();
+    s.name = "c3zoned".into();
+    s.chrono_offset = Some(19_800);
+    v.push(("3 users, source date and changelog time given as chrono DateTime at +05:30".into(), s));
+    let mut s = v[3].1.clone();
+    s.name = "c3zoned-west".into();
+    s.chrono_offset = Some(-28_800);
+    s.sign = Some(Key::Ed25519);
+    v.push(("3 users, signed, source date given as chrono DateTime at -08:00".into(), s));
     let mut s = v[4].1.clone();
     s.name = "c5rich".into();
     s.compression = Comp::Gzip(6);
